@@ -56,7 +56,8 @@ func (obj *PdfLogTransform) CloneScalarPdf() ScalarPdf {
 /* -------------------------------------------------------------------------- */
 
 func (obj *PdfLogTransform) LogPdf(r Scalar, x ConstScalar) error {
-  if v := x.GetFloat64(); v < 0.0 {
+  // support of y with log(y+c) ~ ScalarPdf: y + c > 0
+  if v := x.GetFloat64() + obj.c; !(v > 0.0) {
     r.SetFloat64(math.Inf(-1))
     return nil
   }
